@@ -133,7 +133,7 @@ def run(tier, seed, replay_case=None):
         items += core.run_sharded(eval_cases, seed + 1, n_multi, {'tier': tier, 'multi': True},
                                   shards=min(core.NCPU, n_multi))
     drv = core.Driver()
-    scns = [S.with_ids(it['scn'], it['impl'].get('def_ids')) if 'def_ids' in it['impl']
+    scns = [S.with_ids(it['scn'], it['impl'].get('_def_ids')) if '_def_ids' in it['impl']
             else it['scn'] for it in items]
     mruns = T.run_models(scns, drv)
     for it, scn_b, mr in zip(items, scns, mruns):
